@@ -55,6 +55,18 @@ def canon(x, _seen=None, _depth=0):
     return ("opaque", t.__module__ + "." + t.__qualname__, repr(x))
 
 
+def sort_dicts(x):
+    """same structure with every mapping's items in a canonical order (specs: key order of a
+    mapping is not significant)"""
+    if type(x) is dict:
+        return dict(sorted(((k, sort_dicts(v)) for k, v in x.items()), key=lambda kv: repr(canon(kv[0]))))
+    if type(x) is list:
+        return [sort_dicts(i) for i in x]
+    if type(x) is tuple:
+        return tuple(sort_dicts(i) for i in x)
+    return x
+
+
 def typed_eq(a, b):
     return canon(a) == canon(b)
 
